@@ -32,6 +32,7 @@ extern "C" int LLVMFuzzerTestOneInput(const uint8_t *data, size_t size) {
       }
     }
     RefRange R = ref_range(rest);
+    if (R.kind == RefRange::HUGE) return 0;
     Enumerated E = impl_range(rest);
     const char *cls = R.kind == RefRange::OK ? "range-ok" : R.kind == RefRange::MUST_REJECT ? "range-malformed" : "range-other";
     vvf::count(data, size, R.kind != RefRange::OK || rest.find(':') != rest.rfind(':'), cls);
